@@ -170,6 +170,14 @@ impl<'a> SendTransactionsProofProcess<'a> {
                 let witnesses_root = filtered_block.witnesses_root();
                 let proof = filtered_block.proof();
                 let indices: Vec<u32> = proof.indices().into_iter().map(|v| v.unpack()).collect();
+                // The merkle proof library adds 1 to an index, and no tree has such an index.
+                if indices.iter().any(|index| *index == u32::MAX) {
+                    let errmsg = format!(
+                        "the transactions merkle proof of filtered block {:#x} has an invalid index",
+                        filtered_block.header().calc_header_hash()
+                    );
+                    return StatusCode::InvalidProof.with_context(errmsg);
+                }
                 let lemmas: Vec<packed::Byte32> = proof.lemmas().into_iter().collect();
                 let merkle_proof = MerkleProof::new(indices, lemmas);
                 match merkle_proof
